@@ -67,6 +67,7 @@ type Obligation struct {
 	env     *Env
 	fr      *Frame
 	knownPart string
+	relaxed   bool
 }
 
 type VC struct {
@@ -830,6 +831,9 @@ func (vc *VC) storeLoc(h *Heap, loc *Loc, val Val) *Heap {
 // isGhostFam: ghost families change only through explicit ghost updates /
 // explicit modifies entries, never through wildcard havocs.
 func (vc *VC) isGhostFam(fam string) bool {
+	if strings.HasPrefix(fam, "GV_") {
+		return true
+	}
 	if !strings.HasPrefix(fam, "H_") {
 		return false
 	}
